@@ -8,7 +8,7 @@
 //! A case only counts when at least one signal's handler ran while the thread was seen parked.
 //! With `inject` (under sysmon) the worker instead arms "first ppoll of this thread returns -EINTR".
 use crate::marker;
-use crate::mon::{self, errno_of, tracked};
+use crate::mon::{self, errno_of};
 use crate::sys;
 use crate::timed::{tcp_full_queue, unix_full_backlog};
 use std::sync::atomic::{AtomicU64, Ordering::Relaxed};
@@ -25,7 +25,7 @@ extern "C" fn on_usr1(_sig: i32) {
     HANDLED.fetch_add(1, Relaxed);
 }
 
-fn install_handler() {
+pub fn install_handler() {
     let sa = sys::SigAction {
         handler: on_usr1 as *const () as usize,
         mask: [0; 16],
@@ -39,11 +39,16 @@ fn addr(port: u16) -> SocketAddress {
     SocketAddress::new(Ip::V4([127, 0, 0, 1]), port)
 }
 
-fn in_ppoll(tid: i32) -> bool {
+/// inside a system call a socket operation can wait in (ppoll for the non-blocking design; read,
+/// write, connect, accept4, recvfrom... when the descriptor happens to be blocking)
+pub fn in_ppoll(tid: i32) -> bool {
     let pid = unsafe { sys::getpid() };
-    sys::task_syscall(pid, tid).is_some_and(|s| s.starts_with("271 "))
+    sys::task_syscall(pid, tid).is_some_and(|s| {
+        let nr = s.split_whitespace().next().and_then(|x| x.parse::<i64>().ok()).unwrap_or(-1);
+        matches!(nr, 271 | 0 | 1 | 42 | 43 | 44 | 45 | 46 | 47 | 288)
+    })
 }
-fn wait_in_ppoll(tid: i32, ms: u64) -> bool {
+pub fn wait_in_ppoll(tid: i32, ms: u64) -> bool {
     for _ in 0..ms * 2 {
         if in_ppoll(tid) {
             return true;
@@ -61,15 +66,27 @@ pub enum Out {
     Errno(i32),
 }
 
-struct Running {
-    handle: std::thread::JoinHandle<(Out, Duration, Option<Box<dyn std::any::Any + Send>>)>,
-    tid: i32,
-    slot_seq: &'static AtomicU64,
-    seq_before: u64,
+pub struct Running {
+    pub handle: std::thread::JoinHandle<(Out, Duration, Option<Box<dyn std::any::Any + Send>>)>,
+    pub tid: i32,
+    pub slot_seq: &'static AtomicU64,
+    pub seq_before: u64,
 }
 
 /// run `f` on a worker thread inside a tracked slot; `f` returns (outcome, object to keep alive)
-fn start(op: usize, tr: i32, fd: i32, events: i16, inject: bool, f: impl FnOnce() -> (Out, Option<Box<dyn std::any::Any + Send>>) + Send + 'static) -> Running {
+pub fn start(op: usize, tr: i32, fd: i32, events: i16, inject: bool, f: impl FnOnce() -> (Out, Option<Box<dyn std::any::Any + Send>>) + Send + 'static) -> Running {
+    start_timed(op, tr, fd, events, inject, None, f)
+}
+
+pub fn start_timed(
+    op: usize,
+    tr: i32,
+    fd: i32,
+    events: i16,
+    inject: bool,
+    limit: Option<Duration>,
+    f: impl FnOnce() -> (Out, Option<Box<dyn std::any::Any + Send>>) + Send + 'static,
+) -> Running {
     let (tx, rx) = std::sync::mpsc::channel();
     let handle = std::thread::spawn(move || {
         let slot = mon::claim();
@@ -78,7 +95,7 @@ fn start(op: usize, tr: i32, fd: i32, events: i16, inject: bool, f: impl FnOnce(
             marker::inject(marker::SCOPE_THREAD, 271, 0, -4, 1);
         }
         let t0 = Instant::now();
-        let (o, keep) = tracked(slot, op, tr, fd, events, f);
+        let (o, keep) = mon::tracked_timed(slot, op, tr, fd, events, limit, f);
         let el = t0.elapsed();
         if inject {
             marker::disarm();
@@ -95,14 +112,14 @@ fn start(op: usize, tr: i32, fd: i32, events: i16, inject: bool, f: impl FnOnce(
     }
 }
 
-struct Sig {
-    landed: u64,
-    sent: u64,
-    parked: bool,
+pub struct Sig {
+    pub landed: u64,
+    pub sent: u64,
+    pub parked: bool,
 }
 
 /// deliver `k` signals while the worker is inside ppoll, at seeded offsets
-fn pester(w: &Running, r: &mut Rng, k: u64, inject: bool, span_us: u64) -> Sig {
+pub fn pester(w: &Running, r: &mut Rng, k: u64, inject: bool, span_us: u64) -> Sig {
     let mut s = Sig {
         landed: 0,
         sent: 0,
@@ -145,21 +162,21 @@ fn pester(w: &Running, r: &mut Rng, k: u64, inject: bool, span_us: u64) -> Sig {
     s
 }
 
-struct Verdict<'a> {
-    tr: &'a str,
-    op: &'a str,
-    limit: Option<Duration>,
-    peer_acts: bool,
-    want: Option<Vec<u8>>,
+pub struct Verdict<'a> {
+    pub tr: &'a str,
+    pub op: &'a str,
+    pub limit: Option<Duration>,
+    pub peer_acts: bool,
+    pub want: Option<Vec<u8>>,
 }
 
 /// the tracked call has been entered and left again
-fn ended(w: &Running) -> bool {
+pub fn ended(w: &Running) -> bool {
     w.slot_seq.load(Relaxed) >= w.seq_before + 2
 }
 
 #[allow(clippy::too_many_arguments)]
-fn conclude(v: &Verdict, sig: &Sig, early: bool, out: &Out, el: Duration, inject: bool, tot: &mut Tot) {
+pub fn conclude(v: &Verdict, sig: &Sig, early: bool, out: &Out, el: Duration, inject: bool, tot: &mut Tot) {
     let desc = format!(
         "\"transport\":\"{}\",\"op\":\"{}\",\"limit_ns\":{},\"peer_acts\":{},\"signals_sent\":{},\"handlers_run_while_parked\":{},\"ppoll_eintr_injected\":{},\"elapsed_ns\":{},\"result\":{}",
         v.tr,
@@ -248,13 +265,13 @@ fn conclude(v: &Verdict, sig: &Sig, early: bool, out: &Out, el: Duration, inject
 }
 
 #[derive(Default)]
-struct Tot {
-    signals: u64,
-    not_parked: u64,
-    no_signal_landed: u64,
+pub struct Tot {
+    pub signals: u64,
+    pub not_parked: u64,
+    pub no_signal_landed: u64,
 }
 
-fn out_of<T>(r: tiny_std::Result<T>, f: impl FnOnce(&T) -> Vec<u8>) -> (Out, Option<T>) {
+pub fn out_of<T>(r: tiny_std::Result<T>, f: impl FnOnce(&T) -> Vec<u8>) -> (Out, Option<T>) {
     match r {
         Ok(v) => (Out::Ok(f(&v)), Some(v)),
         Err(tiny_std::Error::Timeout) => (Out::Timeout, None),
@@ -262,7 +279,7 @@ fn out_of<T>(r: tiny_std::Result<T>, f: impl FnOnce(&T) -> Vec<u8>) -> (Out, Opt
     }
 }
 
-fn keep<T: Send + 'static>(o: (Out, Option<T>)) -> (Out, Option<Box<dyn std::any::Any + Send>>) {
+pub fn keep<T: Send + 'static>(o: (Out, Option<T>)) -> (Out, Option<Box<dyn std::any::Any + Send>>) {
     (o.0, o.1.map(|v| Box::new(v) as Box<dyn std::any::Any + Send>))
 }
 
